@@ -18,6 +18,7 @@ RULE = ("for each corpus script and each k = 1..N (N = back-end calls of the fau
         "= distinct (script, failing operation, call site = step kind, reply codes) signatures; non-trivial = the "
         "fault actually fired.")
 RULE += ("  " + 'Also: bursts of commands with exactly one user of the failing operation (replies judged by position); a bare PathIOError; time-outs as failures; every other probe re-uses the passive listener of the failed transfer.')
+RULE += ("  " + 'Also (round 6): the aborted-in-mid-transfer script belongs to the quick tier as well.')
 RULE += ("  " + 'Also: the failed upload command is simply given again and must work.')
 ASSUMPTIONS = [
     "faults are raised inside aioftp's own universal_exception wrapper by a spying subclass of the shipped back end",
@@ -39,7 +40,7 @@ EXCS = {
     "bare": lambda: Bare(),      # reaches the server as aioftp.PathIOError() without a reason (a custom back end raising it itself)
 }
 QUICK_SCRIPTS = ["walk", "mkd_rmd", "stor_pasv", "stor_epsv_after", "appe", "retr_pasv", "retr_rest", "stor_rest",
-                 "list", "mlsd", "mlst", "rename", "dele", "two_transfers", "pipelined_fs", "stor_rest_missing"]
+                 "list", "mlsd", "mlst", "rename", "dele", "two_transfers", "pipelined_fs", "stor_rest_missing", "abor_mid"]
 PROBE = [["cmd", "PWD"], ["epsv"], ["xfer", "STOR", "/probe.bin", 1234], ["epsv"], ["xfer", "RETR", "/probe.bin"], ["quit"]]
 
 
